@@ -22,6 +22,7 @@ struct FOp
     int64_t ms = 0; // advance: milliseconds
     int days = 0; // advance: whole days (after ms)
     int to = 0; // advance: 1 = to 23:59:59.999 of the current day first
+    int rmobst = 0; // restart: 1 = the obstacle directory (if any) is removed before the sink is created again
     int wj = 0; // advance: 1 = the whole days are a step of the wall clock only (clock set / suspend): the monotonic clock does not move
     // attached faults (C10): at most one of them in a replayed plan
     int crash_b = -1; // crash at the b-th state-changing boundary inside this operation
